@@ -4,7 +4,8 @@
 (*    32-bit and a 64-bit architecture without return address on the stack)  *)
 (*    x NI integer x NF float parameter registers x K fixed parameters       *)
 (*    placed as the convention places them (pointer-sized slots).            *)
-(*  - Next places one more variadic argument: EVERY sequence of argument     *)
+(*  - Next places one more variadic argument (four actions: integer / float  *)
+(*    class argument into a register / onto the stack): EVERY sequence of argument     *)
 (*    types up to MaxLen over {Integer (int), Pointer (long / pointer),      *)
 (*    Double, Char (promoted to int)} is explored (BFS).                     *)
 (*  - The specification is checked against itself: machine = closed form =   *)
@@ -44,10 +45,16 @@ MCInit == \E n \in NIs, f \in NFs, k \in Ks, mi \in ModelIds :
             /\ Start(Config(n, f, k, Models[mi]))
 Behaviour == [arch |-> model.arch, ptr |-> model.ptr, ni |-> cfg.ni, nf |-> cfg.nf, k |-> Len(cfg.fixed),
               args |-> args', locs |-> locs']
-MCNext == /\ Len(args) < MaxLen
-          /\ \E a \in ArgsOf(model) : Place(a)
-          /\ UNCHANGED model
-          /\ (Emitting => PrintT(ToJson(Behaviour)))
+\* one disjunct per action of the machine (so that -coverage counts each of them)
+Step(A(_)) == /\ Len(args) < MaxLen
+              /\ \E a \in ArgsOf(model) : A(a)
+              /\ UNCHANGED model
+              /\ (Emitting => PrintT(ToJson(Behaviour)))
+MCIntToReg == Len(args) < MaxLen /\ Step(IntToReg)
+MCIntToStack == Len(args) < MaxLen /\ Step(IntToStack)
+MCFloatToReg == Len(args) < MaxLen /\ Step(FloatToReg)
+MCFloatToStack == Len(args) < MaxLen /\ Step(FloatToStack)
+MCNext == MCIntToReg \/ MCIntToStack \/ MCFloatToReg \/ MCFloatToStack
 MCSpec == MCInit /\ [][MCNext]_mvars
 
 \* the configurations are in the input class of the statement
